@@ -110,6 +110,7 @@ def run(chk):
     plan = []
     kinds = ["continental plate", "oceanic plate", "mantle layer"]
     for wi in range(60 if quick else 900):
+        rng.seed("%d/c05-1/%d" % (chk.seed, wi))      # every world has its own stream: families do not disturb each other
         kind = kinds[wi % 3]
         w = {"version": "1.1"}
         g.globals(w)
@@ -162,6 +163,7 @@ def run(chk):
     # depth from the listed value, not from the smallest value of the surface
     local_plan = []
     for wi in range(9 if quick else 90):
+        rng.seed("%d/c05-2/%d" % (chk.seed, wi))      # every world has its own stream: families do not disturb each other
         kind = kinds[wi % 3]
         w = {"version": "1.1"}
         g.globals(w)
@@ -194,6 +196,7 @@ def run(chk):
     # coordinate (the nearest ridge point is reached through the longitude alias); decided by the model, bit for bit
     from wbgen import cart_point
     for wi in range(8 if quick else 100):
+        rng.seed("%d/c05-3/%d" % (chk.seed, wi))      # every world has its own stream: families do not disturb each other
         w = {"version": "1.1", "coordinate system": {"model": "spherical", "depth method": "begin segment"}}
         g.globals(w)
         w.pop("force surface temperature", None)
@@ -220,6 +223,7 @@ def run(chk):
     import c04
     plume_plan = []
     for wi in range(20 if quick else 300):
+        rng.seed("%d/c05-4/%d" % (chk.seed, wi))      # every world has its own stream: families do not disturb each other
         w = {"version": "1.1"}
         g.globals(w)
         w.pop("force surface temperature", None)
